@@ -96,6 +96,24 @@ def token_provenance(chk, fx, path, where, token_enum):
                 detail += "; None does not lead to an Invalid*Length error"
         chk.expect(ok, "length-provenance", where, f"{kind_}@arm{arm[2]}", "length sanitised (or undefined) before emission; None => Invalid*Length error",
                    detail, loc=f"{h['loc']['f']}:{n[1]}")
+        # the delimiter record pushed in the same arm must carry the very length that the token reports (the sanitised one):
+        # a record with the raw length ends the item one byte early under NextEven
+        if kind_ in ("ItemStart", "SequenceStart"):
+            emitted = H.show(H.struct_field(n, "len"), 4)
+            pushes = [x for x in H.walk(b) if H.kind(x) == "mcall" and x[3] == "push_sequence_token" and len(x[5]) >= 2]
+            for x in pushes:
+                pushed = H.show(x[5][1], 4)
+
+                def binder(name, before_line):
+                    """initialiser of the nearest `let name = ..` in this arm before the line, or None if the name is the arm's pattern binding"""
+                    lets = [s for s in H.walk(b) if H.kind(s) == "slet" and name in H.pat_bindings(s[2]) and s[1] <= before_line and s[3] is not None]
+                    return lets[-1][3] if lets else None
+                same_name = pushed == emitted
+                bp, be = binder(pushed, x[1]), binder(emitted, n[1])
+                same_binding = same_name and (bp is be)
+                san_ok = guard_undef or not san or (bp is not None and any((c or "").endswith("::sanitize_length") for c, _ in H.calls(bp))) or pushed.endswith("UNDEFINED")
+                chk.expect(same_binding and san_ok, "length-provenance", where, f"{kind_}@arm{arm[2]}/pushed-length", "push_sequence_token gets the same (sanitised) length binding as the emitted token",
+                           {"pushed": pushed, "emitted": emitted, "pushed_is_sanitised": bool(san_ok)}, loc=f"{h['loc']['f']}:{x[1]}")
     return n_sites
 
 
